@@ -78,7 +78,7 @@ def default_execute(scn, ctx, timeout=10.0, digests=False):
              "stderr": r["stderr"][:2000], "stderr_len": len(r["stderr"]), "argv": argv}
         if (env.get("config") or {}).get("debug"):
             o["parsed"] = lib.extract_dbg(r["stderr"], "&query = ")
-            o["lexems"] = lib.extract_dbg(r["stderr"], "&self.lexems = ")
+            o["lexems"] = lib.lexems_from_dbg(lib.extract_dbg(r["stderr"], "&self.lexems = "))
         fmt = run.get("fmt", "list")
         if fmt == "list":
             o["rows"] = lib.split_list(r["stdout"], run.get("ncols", 1))
@@ -160,7 +160,7 @@ def load_known(prop):
 def judge(prop, obs, ctx, shards=12):
     """Run the TLA+ judge over observation records; returns list of verdict dicts."""
     if not obs:
-        return []
+        return [], 0
     shards = max(1, min(shards, (len(obs) + 199) // 200))
     env0 = {}
     if getattr(prop, "SHARED_WORLD", False):
@@ -229,7 +229,7 @@ def run_check(prop, tier, seed):
         # 1. Mech-level model checking (design level; DRIFT/tool error, never a verdict by itself)
         for m in (prop.mech(tier, seed) if hasattr(prop, "mech") else []):
             r = lib.run_tlc(m["module"], m.get("cfg"), workers=m.get("workers", 8), env=m.get("env"),
-                            coverage=True, timeout=m.get("timeout", 1800), xmx=m.get("xmx", "8g"),
+                            coverage=m.get("coverage", True), timeout=m.get("timeout", 1800), xmx=m.get("xmx", "8g"),
                             simulate=m.get("simulate"), depth=m.get("depth"), seed=seed if m.get("simulate") else None,
                             tags=("MECH",), deadlock=m.get("deadlock", False))
             expect = m.get("expect_violation")
@@ -294,12 +294,52 @@ def run_check(prop, tier, seed):
         states += jstates
         transitions += jstates
         log("[judge] %d records in %.1fs" % (len(verdicts), time.time() - t2))
-        return finish(prop, tier, seed, t0, obs, verdicts, states, transitions, mech_info, gen_info, never, nruns)
+        # 5. conformance of Mech models with the real code (spec -> implementation replay, or recorded traces
+        #    validated against the Mech actions).  A rejection is DRIFT of the mechanism model: reported, recorded in the
+        #    evidence, never a verdict about the property.
+        drift = []
+        conf_info = []
+        for c in (prop.conformance(tier, seed) if hasattr(prop, "conformance") else []):
+            info = c["run"](ctx, tier, seed) if "run" in c else run_conformance(c, ctx, seed)
+            conf_info.append(info)
+            states += info.get("states", 0)
+            transitions += info.get("states", 0)
+            for d in info.get("drift", []):
+                drift.append(d)
+                print("DRIFT mechanism=%s %s" % (info["name"], d))
+            log("[conf] %s: %d traces/records validated, %d drift, %.1fs" % (info["name"], info.get("validated", 0), len(info.get("drift", [])), info.get("wall_s", 0)))
+        return finish(prop, tier, seed, t0, obs, verdicts, states, transitions, mech_info, gen_info, never, nruns, conf_info)
     finally:
         ctx.cleanup()
 
 
-def finish(prop, tier, seed, t0, obs, verdicts, states, transitions, mech_info, gen_info, never, nruns):
+def run_conformance(c, ctx, seed):
+    """Generator (MC_*) -> real binary -> judge (Judge_*) for a Mech model; returns an info dict."""
+    t0 = time.time()
+    r = lib.run_tlc(c["module"], c.get("cfg"), workers=c.get("workers", 6), timeout=1800)
+    lib.tlc_ok(r, c["module"])
+    scs = r.replays
+    if c.get("limit") and len(scs) > c["limit"]:
+        random.Random(seed).shuffle(scs)
+        scs = scs[:c["limit"]]
+    for i, sc in enumerate(scs):
+        sc["id"] = i + 1
+
+    class P:
+        pass
+    P.ID = c["name"]
+    P.JUDGE = c["judge"]
+    P.__name__ = "driver.check"
+    obs = lib.pmap(lambda sc: default_execute(sc, ctx), scs, workers=14)
+    verdicts, jstates = judge(P, obs, ctx)
+    bad = [v for v in verdicts if not v["ok"]]
+    byid = {o["id"]: o for o in obs}
+    drift = ["%s argv=%s" % (v["why"], json.dumps(byid[v["id"]]["runs"][0]["argv"])[:200]) for v in bad[:10]]
+    return {"name": c["name"], "kind": "replay", "module": c["module"], "states": r.distinct + jstates, "validated": len(verdicts) - len(bad),
+            "rejected": len(bad), "drift": drift, "wall_s": round(time.time() - t0, 1)}
+
+
+def finish(prop, tier, seed, t0, obs, verdicts, states, transitions, mech_info, gen_info, never, nruns, conf_info=()):
     byid = {o["id"]: o for o in obs}
     known = load_known(prop.ID)
     bad = [v for v in verdicts if not v["ok"]]
@@ -338,11 +378,13 @@ def finish(prop, tier, seed, t0, obs, verdicts, states, transitions, mech_info, 
                         "observed": {t: {"status": x.get("status"), "rows": (x.get("rows") or [])[:4]}
                                      for t, x in list(o.get("obs", {}).items())[:2]}})
     cov = {"states": max(states, 1), "transitions": max(transitions, 1),
-           "traces_validated_against_impl": len(good) + sum(len(v) for v in known_hit.values()),
+           "traces_validated_against_impl": len(good) + sum(len(v) for v in known_hit.values())
+                                            + sum(c.get("validated", 0) for c in conf_info),
            "samples": samples, "evaluations": nruns, "distinct_nontrivial": len(nontrivial),
            "rule": getattr(prop, "RULE", ""), "scenario_classes": len(classes),
            "records_judged": len(verdicts), "records_rejected": len(bad),
            "known_finding_keys_hit": sorted(known_hit), "generators": gen_info, "mech_models": mech_info,
+           "mech_conformance": list(conf_info),
            "exhaustive": all(g["mode"] == "bfs" and g["scenarios_run"] == g["scenarios_emitted"] for g in gen_info)}
     write_evidence(prop, tier, seed, time.time() - t0, cov, nviol, getattr(prop, "ASSUMPTIONS", []))
     log("[done] %s tier=%s: %d judged, %d rejected (%d known classes, %d new classes), %.1fs" % (
